@@ -266,6 +266,52 @@ func c18Run(c *mon.Ctx, idx int) {
 		}
 		c.Count("rel:insufficient-budget-refused")
 	}
+	// a later WithHookFn(nil) clears an earlier hook (last wins)
+	for i, o := range set {
+		if o.kind != "hook" {
+			continue
+		}
+		cleared := append(append([]optSpec(nil), set...), optSpec{kind: "hook", hook: "nil"})
+		without := append(append([]optSpec(nil), set[:i]...), set[i+1:]...)
+		oc, ok1, _ := c18Eval(text, node, cleared)
+		ow, ok2, _ := c18Eval(text, node, without)
+		c.Evals(2)
+		if ok1 && ok2 && oc.Class3() != ow.Class3() {
+			c.Violation(fmt.Sprintf("C18 nil-hook-does-not-clear cleared=%s without=%s", oc.Class3(), ow.Class3()), "WithHookFn(nil) after a hook did not behave like no hook at all",
+				map[string]any{"expression": clip(text, 300), "datum": clip(node.Describe(), 1000), "options": describeList(cleared), "outcome": oc.String(), "without_hook": ow.String()})
+		}
+		c.Count("rel:nil-hook-clears")
+	}
+	// the evaluator must not keep the caller's option slice: overwriting the
+	// slice after creation changes nothing
+	if len(set) > 0 {
+		var opts []bexpr.Option
+		for _, o := range set {
+			opts = append(opts, o.real())
+		}
+		ev, err, pan, _ := createEval(text, opts...)
+		if pan == "" && err == nil {
+			for i := range opts {
+				switch set[i].kind {
+				case "tag":
+					opts[i] = bexpr.WithTagName(map[string]string{"alt": "bexpr", "bexpr": "alt"}[set[i].tag])
+				case "hook":
+					opts[i] = bexpr.WithHookFn(hookNames[map[string]string{"identity": "unwrap", "unwrap": "const", "const": "unwrap"}[set[i].hook]].Real())
+				case "unknown":
+					opts[i] = bexpr.WithUnknownValue("overwritten")
+				default:
+					opts[i] = nil
+				}
+			}
+			o := evaluate(ev, node.Datum())
+			c.Evals(1)
+			if o.Class3() != base.Class3() {
+				c.Violation(fmt.Sprintf("C18 caller-slice-aliased base=%s after=%s", base.Class3(), o.Class3()), "overwriting the caller's option slice after CreateEvaluator changed the evaluator's behaviour",
+					map[string]any{"expression": clip(text, 300), "options": describeList(set), "before": base.String(), "after": o.String()})
+			}
+			c.Count("rel:caller-slice-not-aliased")
+		}
+	}
 	// 3. neutral settings are no-ops
 	has := map[string]bool{}
 	for _, o := range set {
@@ -344,7 +390,7 @@ func init() {
 		NumCases:    func(tier string) int { return tierN(tier, 5000, 250000) },
 		Run:         c18Run,
 		Required: func(tier string) []string {
-			return []string{"rel:permutation", "rel:last-wins", "rel:insufficient-budget-refused", "rel:neutral-identity-hook", "rel:neutral-nil-hook", "rel:neutral-tag-bexpr", "rel:neutral-budget-0", "rel:neutral-budget-above-steps", "rel:neutral-budget-equal-steps",
+			return []string{"rel:permutation", "rel:last-wins", "rel:insufficient-budget-refused", "rel:nil-hook-clears", "rel:caller-slice-not-aliased", "rel:neutral-identity-hook", "rel:neutral-nil-hook", "rel:neutral-tag-bexpr", "rel:neutral-budget-0", "rel:neutral-budget-above-steps", "rel:neutral-budget-equal-steps",
 				"rel:neutral-unknown-when-all-resolve", "outcome:T", "outcome:F", "outcome:E", "hook_changed_outcome:props.hookUnwrap", "hook_changed_outcome:props.hookConst", "tag_changed_outcome", "unknown_changed_outcome",
 				"options_in_list:0", "options_in_list:3", "options_in_list:4"}
 		},
